@@ -64,6 +64,18 @@ func (x *Exec) doCall(fr *frame, in *Instr, ops []lval) lval {
 		buf := x.concretize(av[0].(*smt.Term), "jmp_buf")
 		panic(&core.LongJmp{Buf: buf, Val: smt.Resize(av[1].(*smt.Term), 32, true)})
 	}
+	if x.Cfg.CheckCallABI && in.FnTy != nil {
+		// the operands must have the types the call's own function type names
+		// (the IR verifier rejects anything else; llgo does not run it)
+		for i, pt := range in.FnTy.Elems {
+			if i < n-1 && in.Ops[i].Ty != nil {
+				if a, b := strings.Join(typeLeaves(in.Ops[i].Ty, nil), ","), strings.Join(typeLeaves(pt, nil), ","); a != b {
+					x.ub("call-abi."+name, fmt.Sprintf("malformed call of @%s: argument %d has type (%s), the called function type expects (%s)", name, i, a, b), smt.True)
+					x.M.EndPath("ub")
+				}
+			}
+		}
+	}
 	if f != nil && !f.IsDecl && x.Cfg.CheckCallABI && in.FnTy != nil {
 		if msg := abiMismatch(in, f); msg != "" {
 			id := "call-abi." + name
